@@ -220,10 +220,41 @@ func (seg *Segmenter) splitByBidi(text Input) {
 	if text.Direction.Progression() == di.TowardTopLeft {
 		def = bidi.RightToLeft
 	}
+	// bidi.Paragraph only analyses its input up to the first paragraph separator:
+	// handle one paragraph at a time (a separator belongs to the paragraph it ends)
+	paragraph := text
+	for paragraph.RunStart < text.RunEnd {
+		paragraph.RunEnd = paragraph.RunStart + 1
+		for paragraph.RunEnd < text.RunEnd && !isParagraphSeparator(text.Text[paragraph.RunEnd-1]) {
+			paragraph.RunEnd++
+		}
+		seg.splitParagraphByBidi(paragraph, def)
+		paragraph.RunStart = paragraph.RunEnd
+	}
+}
+
+func isParagraphSeparator(r rune) bool {
+	props, _ := bidi.LookupRune(r)
+	return props.Class() == bidi.B
+}
+
+// appendBidiRun adds [run] to the output, extending the previous run
+// instead if it has the same direction
+func (seg *Segmenter) appendBidiRun(run Input) {
+	if L := len(seg.output); L != 0 && seg.output[L-1].Direction == run.Direction {
+		seg.output[L-1].RunEnd = run.RunEnd
+		return
+	}
+	seg.output = append(seg.output, run)
+}
+
+// splitParagraphByBidi expects a non empty range, with no paragraph separator
+// before its last rune
+func (seg *Segmenter) splitParagraphByBidi(text Input, def bidi.Direction) {
 	seg.bidiParagraph.SetString(string(text.Text[text.RunStart:text.RunEnd]), bidi.DefaultDirection(def))
 	out, err := seg.bidiParagraph.Order()
 	if err != nil || out.NumRuns() == 0 {
-		seg.output = append(seg.output, text)
+		seg.appendBidiRun(text)
 		return
 	}
 
@@ -243,7 +274,7 @@ func (seg *Segmenter) splitByBidi(text Input) {
 			currentInput.Direction.SetProgression(di.FromTopLeft)
 		}
 
-		seg.output = append(seg.output, currentInput)
+		seg.appendBidiRun(currentInput)
 		input.RunStart = currentInput.RunEnd
 	}
 }
